@@ -144,6 +144,18 @@ def cases(tier, seed):
         s = {'N': N, 'M': M, 'R': R, 'patterns': pats_for(N, R, rng, M=M)}
         cs.append({'scen': 'tt_to_qtt', 's': s})
         cs.append({'scen': 'tt_to_qtt', 's': dict(s, eps='default')})
+    # ---- sign-free / complex entries around singleton modes (the 1x1 QR factors of rl_orthogonal are signs / phases there)
+    for dt in ('float64', 'complex128'):
+        for N, t in [([2, 2, 1], [4]), ([2, 2, 1], [2, 2]), ([1, 2, 2], [4]), ([1, 2, 2], [2, 2]), ([2, 1, 2], [4]), ([2, 2, 1, 1], [4]), ([2, 2], [1, 4, 1]), ([2, 2], [4, 1, 1]),
+                     ([1, 1, 3], [3]), ([3, 1, 1], [3, 1])]:
+            cs.append({'scen': 'tt_reshape', 's': {'N': N, 'R': [1] * (len(N) + 1), 'patterns': [], 'general': True, 'target': t, 'dtype': dt, 'eps': 'default'}})
+        for N, dims in [([2, 1], [1, 0]), ([2, 3], [1, 0]), ([2, 1, 2], [2, 0, 1]), ([2, 2, 1], [2, 1, 0])]:
+            cs.append({'scen': 'tt_permute', 's': {'N': N, 'R': [1] * (len(N) + 1), 'patterns': [], 'general': True, 'dims': dims, 'dtype': dt, 'eps': 'default'}})
+    cs.append({'scen': 'tt_reshape', 's': {'M': [2, 1], 'N': [2, 1], 'R': [1, 1, 1], 'patterns': [], 'general': True, 'target_M': [2], 'target_N': [2], 'dtype': 'complex128', 'eps': 'default'}})
+    # ---- complex copies of a sample of the structurally-orthogonal cases (fixed rational unit phases on the symbolic magnitudes)
+    cplx = [c for c in cs if c['scen'] in ('tt_reshape', 'tt_permute', 'tt_to_qtt') and not c['s'].get('general')]
+    for c in _pick(cplx, 24 if not th else 60, rng):
+        cs.append({'scen': c['scen'], 's': dict(c['s'], dtype='complex128')})
     # qtt_to_tens: arbitrary cores (Z-scalars)
     Z = {'scalar_mode': 'Z'}
     for N, R, orig in [([2, 2], [1, 2, 1], [4]), ([2, 2, 2], [1, 2, 2, 1], [4, 2]), ([2, 2, 2], [1, 2, 3, 1], [2, 4]), ([2, 2, 2], [1, 2, 2, 1], [8]),
@@ -177,8 +189,8 @@ def meta(tier):
         'functions': loader.functions_encoded(fns), 'sig': sig,
         'bounds': 'reshape: sources with numel <= 16 (thorough 24) into ordered factorisations/merges with singleton modes inserted at the front, middle and end, tensors and operators; '
                   'permute: all permutations of orders 2..3, sample for 4 (thorough: all of 4, sample of 5); to_qtt for power-of-2 (and 3) shapes, tensors and square operators; qtt_to_tens on '
-                  'arbitrary symbolic cores; inputs: structurally-orthogonal TT objects with symbolic positive magnitudes; eps symbolic in (0, 0.1] and the default',
-        'outside': 'inputs outside the structurally-orthogonal class; the sign/phase freedom of LAPACK QR (the model uses positive-diagonal R; complex dtypes are outside); IEEE rounding',
+                  'arbitrary symbolic cores; inputs: structurally-orthogonal TT objects with symbolic positive magnitudes (float64, and complex128 with fixed rational unit phases per entry), rank-1 objects with arbitrary sign-free real / arbitrary complex entries around singleton modes; eps symbolic in (0, 0.1] and the default',
+        'outside': 'inputs outside the structurally-orthogonal class; the sign/phase freedom of LAPACK QR beyond the modelled representative (positive real diagonal of R; LAPACK-exact for one-row inputs); IEEE rounding',
         'assumptions': ['torch.linalg.qr/svd replaced by the exact models of tv/factor.py (Gram-Schmidt with positive diagonal; structural SVD)', 'symtorch validated per run against real torch',
                         'z3 sat/unsat verdicts; unknown counted inconclusive'],
         'tv_max': 50,
